@@ -132,7 +132,15 @@ void Runner<T, E>::run_impl(Plan const& p, std::vector<std::size_t> const& calls
     // stalls drawn by the scheduler are bounded by 4 * P steps each
     if (ctl.stall_p > 0) w.step_budget += static_cast<u64>(P) * (2 * calls.size() + 4) * 4 * P;
 
-    for (int r = 0; r != P; ++r) arm(w.ranks[r].ctx, p, ctl, r, base);
+    int const split = static_cast<int>(ctl.comm_split);
+    for (int r = 0; r != P; ++r)
+    {
+        // with a split world every rank is known to its job by its rank in the sub-communicator
+        int const group_rank = (split > 0 && r >= split) ? r - split : r;
+        arm(w.ranks[r].ctx, p, ctl, group_rank, base);
+        w.ranks[r].color = (split > 0 && r >= split) ? 1 : 0;
+        w.ranks[r].ctx.world = (split > 0) ? ((r >= split) ? P - split : split) : P;
+    }
 
     std::vector<std::unique_ptr<PChk>> pres(P);
     std::vector<std::unique_ptr<VChk>> vres(P);
@@ -141,12 +149,13 @@ void Runner<T, E>::run_impl(Plan const& p, std::vector<std::size_t> const& calls
     std::vector<char> returned(P, 0);
 
     w.run([&](int r) {
+        MPI_Comm const comm = (split > 0) ? 100 + w.ranks[r].color : MPI_COMM_WORLD;
         // every rank owns private copies of user code and checkpoint, as separate processes would
         if (integ_ == PLAIN)
         {
             PI in(pf, p.dims, params);
             PChk start(*pc_);
-            pres[r].reset(new PChk(hep::mpi_plain(MPI_COMM_WORLD, in, calls, start,
+            pres[r].reset(new PChk(hep::mpi_plain(comm, in, calls, start,
                 SimMpiCallback<PChk>(ctl))));
             ctx().counting = false;
             std::ostringstream o;
@@ -157,7 +166,7 @@ void Runner<T, E>::run_impl(Plan const& p, std::vector<std::size_t> const& calls
         {
             VI in(vf, p.dims, params);
             VChk start(*vc_);
-            vres[r].reset(new VChk(hep::mpi_vegas(MPI_COMM_WORLD, in, calls, start,
+            vres[r].reset(new VChk(hep::mpi_vegas(comm, in, calls, start,
                 SimMpiCallback<VChk>(ctl))));
             ctx().counting = false;
             std::ostringstream o;
@@ -168,7 +177,7 @@ void Runner<T, E>::run_impl(Plan const& p, std::vector<std::size_t> const& calls
         {
             MI in(mf, p.dims, mm, p.mapd ? p.mapd : p.dims, p.chan, params);
             MChk start(*mc_);
-            mres[r].reset(new MChk(hep::mpi_multi_channel(MPI_COMM_WORLD, in, calls, start,
+            mres[r].reset(new MChk(hep::mpi_multi_channel(comm, in, calls, start,
                 SimMpiCallback<MChk>(ctl))));
             ctx().counting = false;
             std::ostringstream o;
